@@ -4,6 +4,7 @@ import (
 	"fmt"
 	"go/token"
 	"go/types"
+	"sort"
 	"strings"
 
 	"gmslverif/fw"
@@ -28,6 +29,7 @@ func checkC11(c *fw.Ctx) {
 	checkResultAssembly(c)
 	checkMainlineIndex(c)
 	checkLineariseDedup(c)
+	checkMemoKeys(c)
 }
 
 // checkMainlineIndex: powerLevelMainlinePos is both the position table and the "is on the
@@ -702,4 +704,134 @@ func checkLineariseDedup(c *fw.Ctx) {
 	if n == 0 {
 		c.Undecided(rule, construct, "no append building the ordered list was recognised")
 	}
+}
+
+// checkMemoKeys ("8 memo"): a result remembered in a map of the resolver and handed out again for
+// the same key must be a function of that key. The tie-break level of an event depends on the
+// event's own auth events; remembered under the sender alone it becomes whatever the first
+// event of that sender produced, and the resolved state depends on the order of the input.
+// Sources are compared at the granularity of accessor calls on the function's parameters
+// (event.SenderID() vs event.AuthEventIDs()); room-constant accessors are ignored.
+func checkMemoKeys(c *fw.Ctx) {
+	rule := "8 memo"
+	roomConstant := map[string]bool{"Version": true, "RoomID": true}
+	var sources func(v ssa.Value, fr *fw.Frame, depth int, seen map[ssa.Value]bool, out map[string]bool)
+	sources = func(v ssa.Value, fr *fw.Frame, depth int, seen map[ssa.Value]bool, out map[string]bool) {
+		if v == nil || depth > 14 || seen[v] {
+			return
+		}
+		seen[v] = true
+		rec := func(x ssa.Value) { sources(x, fr, depth+1, seen, out) }
+		switch x := v.(type) {
+		case *ssa.Parameter:
+			if a, ok := fr.ArgOf(x); ok {
+				sources(a, fr.Parent, depth+1, seen, out)
+				return
+			}
+			if x.Parent().Signature.Recv() != nil && len(x.Parent().Params) > 0 && x.Parent().Params[0] == x {
+				out["recv"] = true
+				return
+			}
+			out[x.Name()] = true
+		case *ssa.Call:
+			if x.Call.IsInvoke() {
+				// an accessor of an interface value: attribute it to the parameter the value is
+				root, rfr := rootOf(x.Call.Value, fr)
+				if p, ok := root.(*ssa.Parameter); ok && rfr == nil && !(p.Parent().Signature.Recv() != nil && p.Parent().Params[0] == p) {
+					if !roomConstant[x.Call.Method.Name()] {
+						out[p.Name()+"."+x.Call.Method.Name()] = true
+					}
+					return
+				}
+				rec(x.Call.Value)
+				for _, a := range x.Call.Args {
+					rec(a)
+				}
+				return
+			}
+			if callee := fw.Followable(x, fr); callee != nil {
+				nf := &fw.Frame{Site: x, Callee: callee, Parent: fr}
+				for _, r := range fw.Returns(callee) {
+					for _, res := range r.Results {
+						sources(res, nf, depth+1, seen, out)
+					}
+				}
+				return
+			}
+			for _, a := range x.Call.Args {
+				rec(a)
+			}
+		case *ssa.Phi:
+			for _, e := range x.Edges {
+				rec(e)
+			}
+		case *ssa.Alloc:
+			for _, ref := range *x.Referrers() {
+				if st, ok := ref.(*ssa.Store); ok && st.Addr == ssa.Value(x) {
+					rec(st.Val)
+				}
+			}
+		default:
+			var ops []*ssa.Value
+			if ins, ok := v.(ssa.Instruction); ok {
+				ops = ins.Operands(ops)
+				for _, o := range ops {
+					if o != nil && *o != nil {
+						rec(*o)
+					}
+				}
+			}
+		}
+	}
+	n := 0
+	for _, fn := range c.P.SrcFuncs() {
+		if fn.Pkg == nil || fn.Pkg.Pkg.Path() != fw.ModPath || fn.Signature.Recv() == nil {
+			continue
+		}
+		if file := c.P.Pos(fn.Pos()); !strings.HasPrefix(file, "stateresolution") {
+			continue
+		}
+		for _, b := range fn.Blocks {
+			for _, ins := range b.Instrs {
+				mu, ok := ins.(*ssa.MapUpdate)
+				if !ok {
+					continue
+				}
+				ms := strings.TrimLeft(fw.Sig(mu.Map), "*&")
+				if !strings.HasPrefix(ms, "recv.") {
+					continue
+				}
+				// the memo pattern: the same function looks the key up first and returns the hit
+				looked := false
+				for _, b2 := range fn.Blocks {
+					for _, i2 := range b2.Instrs {
+						if lk, isLk := i2.(*ssa.Lookup); isLk && lk.CommaOk && strings.TrimLeft(fw.Sig(lk.X), "*&") == ms {
+							looked = true
+						}
+					}
+				}
+				if !looked {
+					continue
+				}
+				n++
+				keySrc, valSrc := map[string]bool{}, map[string]bool{}
+				sources(mu.Key, nil, 0, map[ssa.Value]bool{}, keySrc)
+				sources(mu.Value, nil, 0, map[ssa.Value]bool{}, valSrc)
+				var missing []string
+				for s := range valSrc {
+					if i := strings.Index(s, "."); i > 0 && !keySrc[s] && !keySrc[s[:i]] {
+						missing = append(missing, s)
+					}
+				}
+				construct := fmt.Sprintf("%s: what is remembered in %s is a function of its key", fw.FuncName(fn), ms)
+				if len(missing) > 0 && len(keySrc) > 0 {
+					sort.Strings(missing)
+					c.Fail(rule, construct, c.P.Pos(fw.InstrPos(mu)), fmt.Sprintf("the value stored under a key built from {%s} also depends on %s: the first event seen for a key decides what every later event with that key gets, so the outcome depends on the order in which events are visited", strings.Join(sortedSet(keySrc), ", "), strings.Join(missing, ", ")))
+				} else {
+					c.Ok(rule, construct, c.P.Pos(fw.InstrPos(mu)), "key sources {"+strings.Join(sortedSet(keySrc), ", ")+"}")
+				}
+			}
+		}
+	}
+	c.Count("memo maps examined", n)
 }
